@@ -649,7 +649,7 @@ func runC16(c *wk.Ctx) {
 		fixed = append(fixed, pair{ref, sdk})
 	}
 	const sweep = 200001
-	nGen := c.N(2000, 80000)
+	nGen := c.N(2000, 320000)
 	total := int64(sweep) + int64(len(fixed)) + nGen
 	c.Meta("exhaustive", false)
 	c.Meta("cov.int_sweep", "every integer in [0,200000] for each of 8 unit sets, both formats (enumerated completely in both tiers)")
